@@ -173,7 +173,7 @@ def check(col: Collector, tier: str):
     c18.check(sub, tier)
     col.floor("C13.R5", 5)
     for o in sub.obs:
-        if o.rule == "C18.R4":
+        if o.rule == "C18.R4" or (o.rule == "C18.R2" and "round-trip" in o.detail):
             col.add("C13.R5", o.construct, o.detail, o.ok, o.msg, o.loc)
         elif o.rule == "C18.R7":
             col.add("C13.R9", o.construct, o.detail, o.ok, o.msg + " (a shared literal object is also re-typed when an accumulator seeded with it is widened)", o.loc)
@@ -201,7 +201,8 @@ def check(col: Collector, tier: str):
         ok = sh == ["std::pow(", "{left.as_cpp()}", ", ", "{right.as_cpp()}", ")"]
     col.add("C13.R7", vs.short, "power-is-std::pow(left, right)", ok, "", vs.loc)
     bt = defs_of(vs.node, "best_type")
-    ok = len(bt) == 1 and "terminal('double'" in src(bt[0]).replace('"', "'") and not isinstance(bt[0], ast.IfExp) and src(tpl[0].args[2]) == "best_type" if tpl else False
+    from sa.props._tr import is_plain_terminal
+    ok = len(bt) == 1 and is_plain_terminal(bt[0], "double") and src(tpl[0].args[2]) == "best_type" if tpl else False
     pmv = parent_map(vs.node)
     if ok:
         asg = [n for n in walk_no_nested(vs.node) if isinstance(n, ast.Assign) and src(n.targets[0]) == "best_type"][0]
@@ -211,6 +212,18 @@ def check(col: Collector, tier: str):
     inc = any(isinstance(c, ast.Call) and call_name(c) == "add_include" and const_str(c.args[0]) == "cmath" for c in ast.walk(vs.node))
     col.add("C13.R7", vs.short, "power-includes-cmath", inc, "", vs.loc)
 
+    from sa.props._tr import import_obligations
+    import_obligations(col, "C13.R12", "c10", lambda o: o.rule == "C10.R3" and o.detail in ("add-and-lookup-agree",),
+                       "the cast of int/int division and the result's column type are chosen from the method's recorded return type: the LAST declaration must win")
+    # ------------------------------------------------------------ R11 a conditional yields its arm's value (cursor discipline shared with C04)
+    from sa.core.scope_typestate import ScopeInterp
+    from sa.props.c04 import check_ifexp
+    sub4 = Collector("C13")
+    check_ifexp(sub4, repo, ScopeInterp(repo), m)
+    col.floor("C13.R11", 4)
+    for o in sub4.obs:
+        col.add("C13.R11", o.construct, o.detail, o.ok, o.msg + " (an else attached to another if - e.g. the guard First() left open in the test - lets the "
+                "false arm overwrite the true arm's value)", o.loc)
     # ------------------------------------------------------------ R8 conditional double (shared with C03)
     col.floor("C13.R8", 2)
     vi = m["visit_IfExp"]
